@@ -328,6 +328,30 @@ theorem quic_cross_routing_by_prefix :
   revert this
   decide
 
+/-- The statement one would like to have for QUIC — "connections with distinct 4-tuples and disjoint CID sets are
+    demultiplexed exactly" — here for the recording sessions with an arbitrary CID script. It is FALSE for the code as it is
+    (and for any passive observer that does not try decryption: a short header does not say how long its DCID is). -/
+def quic_route_statement : Prop :=
+  ∀ (script : Nat → List Bytes × List Bytes) (A B C : List (QIn Nat)), Merge A B C →
+    (∀ n ∈ List.range (A.length + 1), ∀ s ∈ quicRun (Rec.quic script) opts [] (A.take n), ∀ x ∈ B, s.matches x.p = false) →
+    (∀ m ∈ List.range (B.length + 1), ∀ t ∈ quicRun (Rec.quic script) opts [] (B.take m), ∀ x ∈ A, t.matches x.p = false) →
+    (∀ n ∈ List.range (A.length + 1), ∀ m ∈ List.range (B.length + 1),
+      ∀ s ∈ quicRun (Rec.quic script) opts [] (A.take n), ∀ t ∈ quicRun (Rec.quic script) opts [] (B.take m),
+        ∀ c ∈ s.st.cc ++ s.st.sc, c ∉ t.st.cc ++ t.st.sc) →
+    Merge (quicRun (Rec.quic script) opts [] A) (quicRun (Rec.quic script) opts [] B) (quicRun (Rec.quic script) opts [] C)
+
+/-- `quic_route_exact` is the `_partial` form (extra hypothesis: `QuicSeparated`, i.e. additionally no CID of one connection
+    is a prefix of bytes 1.. of a short-header datagram of the other); this is the counterexample to the full statement.
+    Failing input, replayable on the real code (harness/m1_mainloop.py `replay_cross_routing`): three datagrams
+    `a1` = 10.0.0.1:5000 → 10.0.0.9:443 long header DCID `aa` (its session learns client CID `02`),
+    `b1` = 10.0.0.2:6000 → 10.0.0.9:443 long header DCID `bb` (its session learns client CID `02 07`),
+    `b2` = 10.0.0.9:443 → 10.0.0.2:6000 short header `40 02 07 63 62`: given to the FIRST session, as DCID `02`. -/
+theorem quic_route_counterexample : ¬ quic_route_statement := by
+  intro H
+  have := H (script [2, 7]) [a1] [b1, b2] [a1, b1, b2] (.left _ (.right _ (.right _ .nil))) (by decide) (by decide)
+    (by decide)
+  exact quic_cross_routing_by_prefix.2.2.2 this
+
 /-- Without distinct 4-tuples (same client address and port towards the same server, e.g. two captures of a reused port
     merged): the second connection's Initial, whose DCID the first session does not know, is taken by the first session
     through the 4-tuple fallback. -/
